@@ -206,7 +206,7 @@ Qed.
 
 Section Extraction.
   Variable pe : str -> option Conv.evr.
-  Variable ex : str -> str.
+  Variable ex : str -> option str.
 
   (* values of definitions hold no extract; they are not scope_extract_lists *)
   Definition flatv (v:pyval) : Prop := named v /\ tops v = [] /\ (forall o l, v <> VScopeList o l).
@@ -246,9 +246,11 @@ Section Extraction.
       + intro H; inversion H. unfold qstr_from_words.
         destruct (Parser.is_plain_none ws); [apply flat_atom; exact I|].
         destruct (Parser.is_plain_auto ws); apply flat_atom; exact I.
-      + intro H; inversion H. unfold path_from_words, str_from_words.
-        destruct (Parser.is_plain_none ws); [apply flat_atom; exact I|].
-        destruct (Parser.is_plain_auto ws); apply flat_atom; exact I.
+      + unfold path_from_words, str_from_words.
+        destruct (Parser.is_plain_none ws); [intro H; inversion H; apply flat_atom; exact I|].
+        destruct (Parser.is_plain_auto ws); [intro H; inversion H; apply flat_atom; exact I|].
+        destruct (ex _); [intro H; inversion H; apply flat_atom; exact I|].
+        destruct ws; cbn [Conv.err_at]; discriminate.
       + intro H; inversion H. unfold str_from_words.
         destruct (Parser.is_plain_none ws); [apply flat_atom; exact I|].
         destruct (Parser.is_plain_auto ws); apply flat_atom; exact I.
@@ -400,7 +402,7 @@ Qed.
 
 Section Paths.
   Variable pe : str -> option Conv.evr.
-  Variable ex : str -> str.
+  Variable ex : str -> option str.
 
   (* extraction of a root scope (empty name): every node, each element of a multiple scope included,
      reports the dotted path of the fields leading to it, and path.f for each of its fields f *)
